@@ -6,7 +6,7 @@
 struct EncCase
 {
   bytes P, key, seed;
-  int cmode = 1, hmode = 0, T = 4, chunk = 64, outbuf = 0;
+  int cmode = 1, hmode = 0, T = 4, chunk = 64, outbuf = 0, refill = 0;
   wapi::SchedSpec s1, s2; // schedules of the first / second operation
   uint64_t plen = 0;
 };
@@ -27,6 +27,7 @@ inline EncCase enc_from(const Case &c)
   e.T = (int)c.geti("T", 4);
   e.chunk = (int)c.geti("chunk", 64);
   e.outbuf = (int)c.geti("outbuf", 0);
+  e.refill = (int)c.geti("refill", 0);
   e.s1 = wapi::SchedSpec::parse(c.get("sched", "k0"));
   e.s2 = wapi::SchedSpec::parse(c.get("sched2", "k0"));
   return e;
@@ -49,6 +50,7 @@ inline wapi::PipeCfg pcfg(const EncCase &e, const wapi::SchedSpec &s)
   pc.chunk = e.chunk;
   pc.sched = s;
   pc.outbuf = e.outbuf;
+  pc.refill = e.refill;
   return pc;
 }
 
@@ -175,6 +177,13 @@ inline void gen_enc(Case &c, const GenOpts &o = GenOpts())
   c.seti("hmode", g::range(0, 3));
   c.seti("T", T);
   c.seti("chunk", chunk);
+  {
+    // hash file-buffer refill size (64-byte units): small values put refill boundaries inside small files
+    long rf = g::oneof<long>({1, 2, 3, 5, 8, 16});
+    if (rf > wapi::refill_capacity())
+      rf = wapi::refill_capacity();
+    c.seti("refill", rf);
+  }
   size_t blocks = (size_t)(len / 16 + 1);
   if (o.schedules)
   {
